@@ -94,7 +94,7 @@ def compile_ir(job, src, defs, inc, out_ll, olevel):
     else:
         raw = out_ll + '.raw'
         rc, out, _ = run(base + ['-O0', '-Xclang', '-disable-O0-optnone', src, '-o', raw], timeout=600)
-        if rc == 0: rc, out, _ = run(['opt-14', '-S', '-passes=mem2reg,simplifycfg', raw, '-o', out_ll], timeout=600)
+        if rc == 0: rc, out, _ = run(['opt-14', '-S', '-passes=mem2reg', raw, '-o', out_ll], timeout=600)
     if rc != 0: raise Inconclusive('clang failed for %s:\n%s' % (job.name, out[-3000:]))
 
 def functions_encoded(ll_text):
